@@ -42,4 +42,9 @@ def IsHandshake (t : Nat) : Bool :=
   ((t &&& 0x3F) == packet.Handshake)
 end packet.Type
 
+namespace Skel
+def C01_ReadPacket : List String := ["acquireReadLock", "defer readLock.Unlock", "readPacketType", "readPacketBodySize", "readPacketBody", "decompressData", "json.Unmarshal"]
+def C01_WritePacket : List String := ["acquireWriteLock", "defer writeLock.Unlock", "writer.Write", "json.Marshal", "compressData", "writer.Write", "writeRateLimitedData", "writer.Write"]
+end Skel
+
 end Gen
